@@ -220,7 +220,7 @@ def parts(tier):
         return [Part('convert', check_convert, strategy=s_convert(), examples=150, shards=4),
                 Part('compare', check_compare, strategy=s_compare(), examples=2500, shards=4)]
     return [Part('convert', check_convert, strategy=s_convert(), examples=2000, shards=8),
-            Part('compare', check_compare, strategy=s_compare(), examples=40000, shards=8)]
+            Part('compare', check_compare, strategy=s_compare(), examples=40000, shards=8, fuzz_runs=150000, fuzz_shards=8)]
 
 
 def selftest():
